@@ -1062,6 +1062,16 @@ func escapedNameLen(s string) int {
 	return nameLen
 }
 
+// escapedTextLen returns the number of octets the text of a character-string or
+// octet field is packed to: an escape sequence, \DDD or \X, stands for one octet
+// (see packTxtString and packOctetString).
+func escapedTextLen(s string) int {
+	if !strings.Contains(s, "\\") {
+		return len(s)
+	}
+	return escapedNameLen(s)
+}
+
 func compressionLenSearch(c map[string]struct{}, s string, msgOff int) (int, bool) {
 	for off, end := 0, false; !end; off, end = NextLabel(s, off) {
 		if _, ok := c[s[off:]]; ok {
